@@ -106,6 +106,7 @@ def main():
     unreproduced = []
     undecided = []
     n_obl = n_unsat = n_sat = 0
+    n_cand_hits = 0
     samples = []
     by_solver = {}
     solver_time = 0.0
@@ -167,6 +168,25 @@ def main():
                 else:
                     unreproduced.append(dict(harness=n, obligation=rec['name'], env=rec.get('env', {}), detail=detail))
             else:
+                hit = None
+                for cand in rec.get('cand_envs', []):
+                    # solver verdict unknown, but the proposition fails by a wide margin at a shadow sample of this path:
+                    # the sample is replayed on the real code, which alone decides
+                    rep, detail = runner.replay(pid, n, cand, tier)
+                    if rep:
+                        hit = (cand, detail)
+                        break
+                if hit is not None:
+                    key = json.dumps(hit[0], sort_keys=True)
+                    n_cand_hits += 1
+                    if key not in seen_models:
+                        seen_models.add(key)
+                        fn = os.path.join(VERIF, 'replays', f"{pid}_{n.replace('/', '_')}_{len(violations)}.json")
+                        json.dump(dict(property=pid, harness=n, obligation=rec['name'], env=hit[0], detail=hit[1],
+                                       found_by='shadow sample of the path (solver verdict: unknown), confirmed by replay'),
+                                  open(fn, 'w'), indent=1, default=str)
+                        violations.append(dict(harness=n, obligation=rec['name'], replay=fn, detail=hit[1]))
+                    continue
                 undecided.append(dict(harness=n, name=rec['name'], reason='solver: unknown/timeout on all back ends',
                                       path=rec['path']))
 
@@ -215,10 +235,14 @@ def main():
             explanation=("Bounded symbolic execution of the real ahrs functions (symnp: numpy object arrays of z3 Real terms, "
                          "np/float module globals re-bound, paths forked on symbolic branches) with every obligation decided by "
                          "SMT solvers over nonlinear real arithmetic; unsat = holds for all real inputs of the stated domain on "
-                         "that path; sat models are replayed on the unpatched float code before being reported. "
+                         "that path; sat models are replayed on the unpatched float code before being reported. Model search is helped by "
+                         "the shadow samples that steer path exploration (inputs pinned to a sample's exact rational value; where "
+                         "every solver answers unknown, a sample at which the assertion fails by a wide margin is replayed on the "
+                         "real code and reported only if it reproduces); 'holds' always rests on an unsat verdict. "
                          + meta.get('explanation', '')),
             obligations=n_obl, discharged=n_unsat, sat_models=n_sat, violations_reproduced=len(violations),
             sat_not_reproduced=len(unreproduced), undecided=len(undecided),
+            violations_from_shadow_sample_candidates=n_cand_hits,
             evaluations=max(n_obl, 1), distinct_nontrivial=max(2, sum(v for k, v in by_solver.items() if k != 'simplifier')),
             rule="one evaluation = one solver-decided obligation (path x assertion or path x definedness condition); "
                  "non-trivial = not closed by term simplification alone",
